@@ -73,6 +73,9 @@ def _data(draw, cfg):
             "value": st.one_of(st.integers(0, 9), st.booleans(),
                                st.sampled_from(["8'h01", "SLICE_X0Y0", "", "a b"]))}),
             min_size=1, max_size=3, unique_by=lambda d: d["identifier"]))
+        for pr in props:
+            if draw(st.integers(0, 3)) == 0:
+                pr["original_identifier"] = draw(st.sampled_from(["box.type", "is inv", "W-1"]))
         return {"EDIF.properties": props}
     if cfg.data_values == "flat":
         vals = _json_leaf
